@@ -279,6 +279,44 @@ func init() {
 					if !a1.CompsNil {
 						setCont(obj, cont)
 					}
+					// where the object comes from: built here, or handed out by a decoder (whatever a decoder remembers about
+					// the list it filled is part of the object)
+					origin := c.Choose("origin", 3)
+					if origin > 0 {
+						var dec psatoken.IClaims
+						var derr error
+						if pn, _ := safely(func() {
+							if origin == 1 {
+								dec, derr = psatoken.DecodeClaimsFromCBOR(mcbor.Encode(wireTree(a1, true)))
+							} else if validUTF8(a1) {
+								dec, derr = psatoken.DecodeClaimsFromJSON(wireJSON(a1))
+							} else {
+								derr = errNotRepresentable
+							}
+						}); pn || derr != nil || dec == nil || reflect.TypeOf(dec) != reflect.TypeOf(obj) {
+							return
+						}
+						obj = dec
+						switch x := obj.(type) {
+						case *psatoken.P1Claims:
+							cont = x.SwComponents
+						case *psatoken.P2Claims:
+							cont = x.SwComponents
+						}
+						ptrs = nil
+						if cont != nil {
+							if vs, err := cont.Values(); err == nil {
+								for _, v := range vs {
+									if sc, ok := v.(*psatoken.SwComponent); ok {
+										ptrs = append(ptrs, sc)
+									}
+								}
+								if len(ptrs) != len(a1.Comps) {
+									ptrs = nil
+								}
+							}
+						}
+					}
 					var e1 error
 					if pn, _ := safely(func() { e1 = obj.Validate(); _ = getterVector(obj) }); pn {
 						return
@@ -295,12 +333,15 @@ func init() {
 					sameShape := !a1.CompsNil && !a2.CompsNil && len(a1.Comps) == len(a2.Comps) && len(a1.Comps) > 0 && !hasNil(a1) && !hasNil(a2) && ptrs != nil
 					reflect.ValueOf(obj).Elem().Set(reflect.ValueOf(tmp).Elem())
 					how := "container-replaced"
-					if sameShape {
+					if origin > 0 {
+						how = []string{"", "cbor-decoded:", "json-decoded:"}[origin] + how
+					}
+					if sameShape && cont != nil {
 						setCont(obj, cont) // keep the container that was validated before
 						for i, sc := range a2.Comps {
 							*ptrs[i] = *realComp(sc)
 						}
-						how = "components-overwritten-in-place"
+						how = []string{"", "cbor-decoded:", "json-decoded:"}[origin] + "components-overwritten-in-place"
 					}
 					var e2 error
 					if pn, _ := safely(func() { e2 = obj.Validate() }); pn {
